@@ -95,7 +95,7 @@ func clipLabel(c Paths) string {
 
 func init() {
 	defProp("C01",
-		"rapid-generated (subject, clip, clip type, fill rule, entry point): closed path sets from families g1 (uniform in +-R, R up to 2^29), rect/oct (exact lattice arrangements), lattice x K and dense (small range), with copies, reversed copies, repeated/closing vertices and degenerate paths mixed in; oracle = exact winding number of every probe point farther than 2.001 units from all input edges; non-trivial = inputs contain a proper crossing or exact coincidence between non-adjacent edges AND probes were judged both inside and outside; distinct by FNV hash of the case",
+		"rapid-generated (subject, clip, clip type, fill rule, entry point): closed path sets from families g1 (uniform in +-R, R up to 2^29), rect/oct (exact lattice arrangements), lattice x K and dense (small range), boxes, levels (vertices on 9 Y levels with generic X: horizontal edges and shared scanlines without an X lattice), right isosceles triangles within oct, with copies, reversed copies, repeated/closing vertices and degenerate paths mixed in; oracle = exact winding number of every probe point farther than 2.001 units from all input edges; non-trivial = inputs contain a proper crossing or exact coincidence between non-adjacent edges AND probes were judged both inside and outside; distinct by FNV hash of the case",
 		[]string{"oracle kit (exact integer winding, float distance with 0.001 guard) is correct; unit-tested against math/big",
 			"probe points sample the faces of the arrangement; faces narrower than ~3 units are not sampled (they are inside the 2-unit band anyway)"},
 		func(t *rapid.T) *C01Case { return drawBoolCase(t, drawFamily(t)) }, judgeC01)
